@@ -38,6 +38,7 @@ def main() -> int:
 
     signal.signal(signal.SIGALRM, on_alarm)
     signal.alarm(budget)
+    ctx = None
     try:
         mod = importlib.import_module(f"props.{prop.lower()}")
         replay = None
@@ -58,6 +59,12 @@ def main() -> int:
         return 2
     except Exception:
         common.log(f"[{prop}] harness crashed:\n{traceback.format_exc()}")
+        # a crash after violations were already recorded must not swallow them
+        try:
+            if ctx is not None and ctx.violations:
+                return ctx.finish()
+        except Exception:
+            pass
         return 2
 
 
